@@ -50,7 +50,7 @@ theorem cupd_fst (t : Taxon) (g : String) (e : Taxon × List String) : (cupd t g
   · rename_i h; simpa using (beq_iff_eq.mp h).symm
   · rfl
 
-theorem any_key_iff (d : List (Taxon × List String)) (t : Taxon) :
+theorem nav_any_key_iff (d : List (Taxon × List String)) (t : Taxon) :
     d.any (·.1 == t) = true ↔ t ∈ d.map (·.1) := by
   simp only [List.any_eq_true, List.mem_map, beq_iff_eq]
 
@@ -100,7 +100,7 @@ theorem clusterPut_keys_nodup (d : List (Taxon × List String)) (t : Taxon) (g :
       funext e; exact cupd_fst t g e
     rw [this]; exact hn
   · rename_i h
-    rw [any_key_iff] at h
+    rw [nav_any_key_iff] at h
     rw [List.map_append, List.nodup_append]
     refine ⟨hn, by simp, ?_⟩
     intro a ha b hb
@@ -114,7 +114,7 @@ theorem clusterPut_flat (d : List (Taxon × List String)) (t : Taxon) (g : Strin
   rw [clusterPut_eq]
   split
   · rename_i h
-    exact map_cupd_flat d t g hn ((any_key_iff d t).mp h)
+    exact map_cupd_flat d t g hn ((nav_any_key_iff d t).mp h)
   · simp
 
 theorem clusterPut_mem (d : List (Taxon × List String)) (t : Taxon) (g : String)
